@@ -5,3 +5,4 @@ open Fzf.Props.C01
 #print axioms C01_documented_syntax
 #print axioms C01_cfgOk_of_tables
 #print axioms C01_filter_exact
+#print axioms C01_exact_term_decides
